@@ -8,6 +8,8 @@ ROOT="$(cd "$(dirname "${BASH_SOURCE[0]}")/.." && pwd)"
 N="${1:-32}"
 export VERIF_ROOT="$ROOT" TZ=NPT-5:45
 T="$ROOT/sim/target/determinism"; mkdir -p "$T"
+if [ -n "$(git -C /repo status --porcelain --untracked-files=no)" ]; then echo "/repo is dirty, refusing"; exit 2; fi
+(cd "$ROOT/sim" && CARGO_NET_OFFLINE=true cargo build --offline --release -p c18 -p c15 -p c03 >/dev/null 2>&1 && CARGO_NET_OFFLINE=true cargo build --offline --profile relchk -p c03 >/dev/null 2>&1) || { echo "build failed"; exit 2; }
 norm() { python3 - "$1" <<'PY'
 import json,sys
 d=json.load(open(sys.argv[1]))
